@@ -10,14 +10,16 @@ vars == <<src, target, force, fmt, tset>>
 
 ASSUME ThmRecompress
 
-\* payload classes: id -> <<size, compressible>>
-Classes == [c1 |-> <<5, 0>>, c2 |-> <<1024, 0>>, c3 |-> <<2048, 1>>, c4 |-> <<70000, 1>>, c5 |-> <<40960, 0>>, c6 |-> <<999, 1>>]
-ClassJson == [i \in {"1", "2", "3", "4", "5", "6"} |->
+\* payload classes: id -> <<size, kind>>; kind 0 incompressible, 1 compressible, 2 = the payload is itself a gzip stream,
+\* 3 = itself a brotli stream (content that looks like an encoding is still content)
+ClassJson == [i \in {"1", "2", "3", "4", "5", "6", "7", "8"} |->
                  CASE i = "1" -> <<5, 0>> [] i = "2" -> <<1024, 0>> [] i = "3" -> <<2048, 1>>
-                   [] i = "4" -> <<70000, 1>> [] i = "5" -> <<40960, 0>> [] OTHER -> <<999, 1>>]
+                   [] i = "4" -> <<70000, 1>> [] i = "5" -> <<40960, 0>> [] i = "6" -> <<999, 1>>
+                   [] i = "7" -> <<600, 2>> [] OTHER -> <<600, 3>>]
 TileSets == {
     << <<0, 0, 0, 1>>, <<1, 0, 0, 2>>, <<1, 1, 0, 3>>, <<1, 0, 1, 4>>, <<1, 1, 1, 5>> >>,
-    << <<3, 2, 5, 6>>, <<3, 3, 5, 6>>, <<9, 255, 255, 4>>, <<9, 256, 255, 1>>, <<9, 256, 256, 3>> >> }
+    << <<3, 2, 5, 6>>, <<3, 3, 5, 6>>, <<9, 255, 255, 4>>, <<9, 256, 255, 1>>, <<9, 256, 256, 3>> >>,
+    << <<2, 1, 1, 7>>, <<2, 2, 1, 8>>, <<2, 1, 2, 3>> >> }
 
 Expressible(f, out) == f # "mbtiles" \/ out = "gzip"      \* MBTiles holds pbf tiles only gzip-compressed
 
